@@ -49,15 +49,17 @@ static int other_ok (struct grammar *o)
 /* one experiment in the child: returns 0 ok, 1 wrong outcome, 2 call succeeded (k beyond the last request) */
 static int experiment (int which, long k)
 {
-  struct grammar *other = yaep_create_grammar (), *g = NULL; struct yaep_tree_node *root = NULL; int amb, rc = 0, ok = 1;
+  struct grammar *other = yaep_create_grammar (), *g = NULL; struct yaep_tree_node *root = NULL; int amb, rc = 0, ok = 1, cfg_one = 1, cfg_cost = 0, cfg_la = 1;
   static const int sent[] = {300, '+', '(', 300, ')'}, nons[] = {300, '+', '+', 300, ')', 300};
   if (other == NULL || yaep_parse_grammar (other, 1, DESC) != 0) return 1;
   if (which != 0) { g = yaep_create_grammar (); if (g == NULL) return 1; }
   if (!longs_ready) { int i; for (i = 0; i < NLONG; i++) { longs[i] = (i % 2) ? '+' : 300; longbad[i] = (i % 7 == 3) ? ')' : longs[i]; } for (i = 0; i < NAMB; i++) amb_in[i] = 'a'; longs_ready = 1; }
-  if (which >= 3 && yaep_parse_grammar (g, which == 8 ? 0 : 1, which == 8 ? AMBDESC : DESC) != 0) return 1;
-  if (which == 8) { yaep_set_one_parse_flag (g, 0); yaep_set_cost_flag (g, 1); }
-  if (which == 7) yaep_set_one_parse_flag (g, 0);
-  if (which >= 3 && which <= 6) { yaep_set_lookahead_level (g, which == 5 ? 2 : 1); yaep_set_one_parse_flag (g, which == 4 ? 0 : 1); }
+  if (which >= 3 && yaep_parse_grammar (g, which >= 8 ? 0 : 1, which >= 8 ? AMBDESC : DESC) != 0) return 1;
+  if (which == 8) { cfg_one = 0; cfg_cost = 1; }
+  if (which == 9) { cfg_one = 1; cfg_cost = 1; }      /* make_parse switches the one-parse flag off for the time of its work (F42) */
+  if (which == 7) cfg_one = 0;
+  if (which >= 3 && which <= 6) { cfg_la = which == 5 ? 2 : 1; cfg_one = which == 4 ? 0 : 1; }
+  if (which >= 3) { yaep_set_lookahead_level (g, cfg_la); yaep_set_one_parse_flag (g, cfg_one); yaep_set_cost_flag (g, cfg_cost); }
   count = 0; fail_at = k;
   switch (which)
     {
@@ -67,6 +69,7 @@ static int experiment (int which, long k)
     case 3: case 5: toks = sent; ntok = 5; pos = 0; rc = yaep_parse (g, rd, er, NULL, NULL, &root, &amb); break;
     case 6: toks = longs; ntok = NLONG; pos = 0; rc = yaep_parse (g, rd, er, NULL, NULL, &root, &amb); break;                /* growth of the token array, the parser list, the tables */
     case 7: toks = longbad; ntok = NLONG; pos = 0; rc = yaep_parse (g, rd, er, NULL, NULL, &root, &amb); break;              /* error recovery over a long input */
+    case 9:
     case 8: toks = amb_in; ntok = NAMB; pos = 0; rc = yaep_parse (g, rd, er, NULL, NULL, &root, &amb); break;                /* ambiguous grammar, all parses, cost flag: DAG building and pruning */
     case 4: toks = nons; ntok = 6; pos = 0; rc = yaep_parse (g, rd, er, NULL, NULL, &root, &amb); break;
     }
@@ -76,7 +79,9 @@ static int experiment (int which, long k)
       if (count < k) { if (root) yaep_free_tree (root, NULL, NULL); yaep_free_grammar (g); yaep_free_grammar (other); return 2; }
       ok = rc == YAEP_NO_MEMORY && yaep_error_code (g) == YAEP_NO_MEMORY && root == NULL;
       /* the object is still usable: it can be defined and parsed again, and freed */
-      if (ok && which >= 3) { if (which == 8) { toks = amb_in; ntok = 3; } else { toks = sent; ntok = 5; } pos = 0; ok = yaep_parse (g, rd, er, NULL, NULL, &root, &amb) == 0 && root != NULL; if (root) yaep_free_tree (root, NULL, NULL); }
+      /* ... with the settings the caller made (C14 / C15) */
+      if (ok && which >= 3) ok = yaep_set_one_parse_flag (g, cfg_one) == cfg_one && yaep_set_cost_flag (g, cfg_cost) == cfg_cost && yaep_set_lookahead_level (g, cfg_la) == cfg_la;
+      if (ok && which >= 3) { if (which >= 8) { toks = amb_in; ntok = 3; } else { toks = sent; ntok = 5; } pos = 0; ok = yaep_parse (g, rd, er, NULL, NULL, &root, &amb) == 0 && root != NULL; if (root) yaep_free_tree (root, NULL, NULL); }
       yaep_free_grammar (g);
     }
   ok = ok && other_ok (other);
@@ -85,9 +90,9 @@ static int experiment (int which, long k)
 }
 int main (void)
 {
-  static const char *name[] = {"yaep_create_grammar", "yaep_parse_grammar", "yaep_read_grammar", "yaep_parse(sentence)", "yaep_parse(non-sentence,all-parses)", "yaep_parse(sentence,lookahead2)", "yaep_parse(61_tokens)", "yaep_parse(61_tokens_with_errors,all-parses)", "yaep_parse(ambiguous,all-parses,cost)"};
+  static const char *name[] = {"yaep_create_grammar", "yaep_parse_grammar", "yaep_read_grammar", "yaep_parse(sentence)", "yaep_parse(non-sentence,all-parses)", "yaep_parse(sentence,lookahead2)", "yaep_parse(61_tokens)", "yaep_parse(61_tokens_with_errors,all-parses)", "yaep_parse(ambiguous,all-parses,cost)", "yaep_parse(ambiguous,one-parse,cost)"};
   int which; int anybad = 0;
-  for (which = 0; which < 9; which++)
+  for (which = 0; which < 10; which++)
     {
       long k, n = 0, badn = 0, first_bad = 0, crashes = 0;
       for (k = 1; k < 5000; k++)
